@@ -203,6 +203,22 @@ func (conn *Tunnel) requestConnState(
 	req := &knxnet.ConnStateReq{Channel: conn.channel, Status: 0, Control: conn.control}
 	conn.infoMu.RUnlock()
 
+	// A response that nobody was waiting for is kept for up to one resend interval. Such a leftover
+	// answers an earlier request, not the one we are about to send, so it must not decide this
+	// heartbeat.
+discard:
+	for {
+		select {
+		case _, open := <-heartbeat:
+			if !open {
+				return knxnet.ErrConnectionID, errors.New("connection server has terminated")
+			}
+
+		default:
+			break discard
+		}
+	}
+
 	// Send first connection state request
 	err := conn.sock.Send(req)
 	if err != nil {
